@@ -35,8 +35,61 @@ type st struct {
 	d    time.Duration
 }
 
-func limitsBlock() string {
-	return "limits:\n  max-duration: 77s\n  concurrency: 5\n  max-iterations: 123\n  max-failures: 7\n  max-failures-rate: 11\n  ignore-dropped: true\n"
+func limitsBlock() string { return limitsWith(true, true) }
+
+// limitsWith: the two failure tolerances are optional; each is stated or left out
+func limitsWith(failures, rate bool) string {
+	s := "limits:\n  max-duration: 77s\n  concurrency: 5\n  max-iterations: 123\n"
+	if failures {
+		s += "  max-failures: 7\n"
+	}
+	if rate {
+		s += "  max-failures-rate: 11\n"
+	}
+	return s + "  ignore-dropped: true\n"
+}
+
+// limitsSuite: the limits map one-to-one onto the run options, through the parser and
+// through the real builder's Trigger.Options, for every stated/omitted pattern of the
+// optional ones and both values of ignore-dropped.
+func limitsSuite() hlib.Suite {
+	return hlib.Suite{Name: "limits/stated-or-omitted/parser-and-builder", Run: func(r *hlib.Rec) {
+		for _, fl := range []bool{false, true} {
+			for _, rt := range []bool{false, true} {
+				for _, ign := range []bool{false, true} {
+					r.Eval()
+					doc := "scenario: sc\n" + strings.Replace(limitsWith(fl, rt), "ignore-dropped: true", fmt.Sprintf("ignore-dropped: %v", ign), 1) +
+						"stages:\n- duration: 1s\n  mode: constant\n" + modeBody["constant"]
+					input := fmt.Sprintf("max-failures stated=%v max-failures-rate stated=%v ignore-dropped=%v", fl, rt, ign)
+					r.SampleCase(input)
+					wantF, wantR := uint64(0), 0
+					if fl {
+						wantF = 7
+					}
+					if rt {
+						wantR = 11
+					}
+					plan, err := file.ParseConfigFile([]byte(doc), T0)
+					if err != nil {
+						r.Fail("C15/limits", "rejected", err.Error(), input+"\n"+doc)
+						continue
+					}
+					if plan.VerifMaxFailures() != wantF || plan.VerifMaxFailuresRate() != wantR || plan.IgnoreDropped != ign || plan.MaxIterations != 123 || plan.Concurrency != 5 || plan.MaxDuration != 77*time.Second {
+						r.Fail("C15/limits", "mismapped", fmt.Sprintf("parser: max-failures=%d max-failures-rate=%d ignore-dropped=%v, the document says %d, %d, %v", plan.VerifMaxFailures(), plan.VerifMaxFailuresRate(), plan.IgnoreDropped, wantF, wantR, ign), input)
+					}
+					tr, opts, err := (&hlib.RunSpec{Mode: "file", FileYAML: doc}).BuildTrigger()
+					if err != nil || tr == nil {
+						r.Fail("C15/limits", "builder-rejected", fmt.Sprint(err), input)
+						continue
+					}
+					if opts.MaxFailures != wantF || opts.MaxFailuresRate != wantR || opts.IgnoreDropped != ign || opts.MaxIterations != 123 || opts.Concurrency != 5 || opts.MaxDuration != 77*time.Second || opts.Scenario != "sc" {
+						r.Fail("C15/limits", "builder-mismapped", fmt.Sprintf("Trigger.Options: %+v; the document says max-failures %d, max-failures-rate %d, ignore-dropped %v", tr.Options, wantF, wantR, ign), input)
+					}
+					r.Distinct(input)
+				}
+			}
+		}
+	}}
 }
 
 // planSuite: which stages are kept, in which order, for every restart instant.
@@ -315,9 +368,9 @@ func fieldOf(mode, what string) string { return mode + "-" + what }
 
 func suites(tier string) []hlib.Suite {
 	if tier == "quick" {
-		return []hlib.Suite{planSuite(2), defaultsSuite(false)}
+		return []hlib.Suite{planSuite(2), defaultsSuite(false), limitsSuite()}
 	}
-	return []hlib.Suite{planSuite(3), defaultsSuite(true)}
+	return []hlib.Suite{planSuite(3), defaultsSuite(true), limitsSuite()}
 }
 
 func main() { hlib.EnumMain("C15", suites) }
